@@ -8,6 +8,7 @@ import (
 	"time"
 
 	"context"
+	znode "github.com/youzan/ZanRedisDB/node"
 	"github.com/youzan/ZanRedisDB/raft"
 	pb "github.com/youzan/ZanRedisDB/raft/raftpb"
 )
@@ -510,13 +511,9 @@ func (c *Cluster) step(nd *nodeRT, ev Event, rec *Record) {
 	if !raft.IsEmptySnap(rd.Snapshot) {
 		nd.waitApply = true
 	}
-	// the rule of node/raft.go shouldPersistBeforeApply (etcd's shouldWaitWALSync), mirrored
-	overlap := false
-	if len(rd.CommittedEntries) > 0 && len(rd.Entries) > 0 {
-		lc := rd.CommittedEntries[len(rd.CommittedEntries)-1]
-		fu := rd.Entries[0]
-		overlap = lc.Term > fu.Term || (lc.Term == fu.Term && lc.Index >= fu.Index)
-	}
+	// node/raft.go shouldPersistBeforeApply itself (hook node/raft_verif.go): does this Ready publish committed entries
+	// that are still unstable
+	overlap := znode.VerifShouldPersistBeforeApply(&rd)
 	nd.stages = CurrentOrder.Stages(Env{Leader: nd.newLeader, Overlap: overlap,
 		EmptyHS: raft.IsEmptyHardState(rd.HardState), EmptySnap: raft.IsEmptySnap(rd.Snapshot)})
 	// node/raft.go processMessages: only the last MsgAppResp is sent; MsgSnap goes through the
